@@ -51,6 +51,11 @@ RULE = ("hist: 5 fixed histories (the deliver / restart / deliver program of fin
         "positions; the walk must yield exactly the non-empty mailboxes of the ordered-map oracle, the scan must remove exactly the expired "
         "messages of ALL mailboxes. The harness's own views (state before/after a reopen, live-vs-fresh) come from separate freshly "
         "constructed store objects; the object under test is never walked by the harness. "
+        "big: restart with LARGE on-disk structures — one mailbox of n messages with nto recipients each (the index entry holds them: 12 x 4000 "
+        "recipients = an index.gob of about 1.4 MiB, 4 x 600 = about 70 KiB; thorough also about 4 MiB, 300 x 120 under cap 500, bodies of 1 MiB "
+        "and 32 MiB), listed through the live object, through a fresh file.New (must be equal), and again after a MarkSeen + delivery + reopen; "
+        "the model does not care about byte sizes and runs with compact stand-ins, the rendered listing (recipients' count and FNV, sizes, content "
+        "digests) and the oracle carry the real ones. "
         "srv: the SERVER, not just the store, is stopped and started again: each incarnation a child process configured through the environment "
         "(file store on one path, INBUCKET_STORAGE_RETENTIONPERIOD 0 = disabled / 24h / 1h, mailbox cap 0/2/3), server.FullAssembly + Services.Start, "
         "mails delivered over the real SMTP port, every mailbox listed through the REST API, cancel + Drain + Join; incarnation 2 only lists, "
@@ -71,7 +76,7 @@ NOT_PROVED = ["visit_complete is completeness only: that the walk yields each ma
 
 
 def nontrivial(kind, ins, outs):
-    if kind in ("reissue", "conc", "srv"):
+    if kind in ("reissue", "conc", "srv", "big"):
         return True
     return kind == "hist" and ("R" in ins[2].split(",") or "X" in ins[2].split(",")) and any(o.startswith("res=") and "k" in o for o in outs)
 
